@@ -95,6 +95,9 @@ impl Scenario for C05 {
         if run < 6 {
             return large_params(seed, run, tier);
         }
+        if run % 8 == 7 {
+            return super::soup::soup_plan("C05", seed, run, tier);
+        }
         let thorough = tier == Tier::Thorough;
         let mut r0 = crate::prng::Rng::derive(seed, "c05-nodes", run);
         // k1.seal is slow (RSA-4096); keep v1 runs at their natural 1/6 share
@@ -216,7 +219,13 @@ impl Scenario for C06 {
     }
     fn plan(&self, seed: u64, run: u64, tier: Tier) -> Plan {
         let slices = if tier == Tier::Quick { 1 } else { 16 };
-        if run < ENUM6 * slices { enumerate6(seed, run, tier, slices) } else { explore6(seed, run, tier) }
+        if run < ENUM6 * slices {
+            enumerate6(seed, run, tier, slices)
+        } else if run % 8 == 7 {
+            super::soup::soup_plan("C06", seed, run, tier)
+        } else {
+            explore6(seed, run, tier)
+        }
     }
 }
 
